@@ -688,21 +688,47 @@ def run(c):
     c.obligation('extract:gauss-tables', extract_err is None, 'extraction', extract_err or 'gauss2: %d tables, gauss3: %d tables' % (len(tables['tri']), len(tables['tet'])))
 
     broken = c.build_and_audit()
+    c.log('lean build + axiom audit done')
     quick = c.tier == 'quick'
 
     only = [x for x in os.environ.get('C09_STREAMS', '').split(',') if x]     # development aid; default: all streams
     def on(name): return not only or name in only
     if on('known'): stream_known_finding(c)
-    if on('tables'): stream_tables(c, tables, extract_err)
-    if on('rules'): stream_rules(c, quick)
-    if on('points'): stream_points_model(c, quick)
-    if on('pointsseq'): stream_pointsseq(c, quick)
-    if on('samples'): stream_samples(c, 70 if quick else 1500)
-    if on('topologies'): stream_gauss_topologies(c, quick)
+    # every stream first runs the real code and collects its model requests; the Lean driver is started once for all of them
+    gens = []
+    if on('tables'): gens.append(('tables', stream_tables(c, tables, extract_err, quick)))
+    if on('rules'): gens.append(('rules', stream_rules(c, quick)))
+    if on('points'): gens.append(('points classes', stream_points_model(c, quick)))
+    if on('samples'): gens.append(('samples', stream_samples(c, 70 if quick else 1500)))
+    pending = []
+    for name, g in gens:
+        try:
+            reqs = next(g)
+            pending.append((name, g, list(reqs)))
+        except StopIteration:
+            pass
+        c.log('%s: real code done' % name)
+    if on('pointsseq'): stream_pointsseq(c, quick); c.log('pointsseq done')
+    if on('topologies'): stream_gauss_topologies(c, quick); c.log('topologies done')
+    answers = c.model([r for name, g, reqs in pending for r in reqs])
+    c.log('model answered %d requests' % len(answers))
+    o = 0
+    for name, g, reqs in pending:
+        a = answers[o:o + len(reqs)]; o += len(reqs)
+        try:
+            g.send(a)
+            raise Infra('stream %s yields more than once' % name)
+        except StopIteration:
+            pass
+        c.log('%s: compared' % name)
 
+    # a broken proof / table check that is explained by a failing input found above is not reported a second time
+    explained = any(v[2].startswith(('gauss-', 'rule-', 'gauss1-')) for v in c.violations)
     for b in broken:
+        if explained and 'C09Tables' in b:
+            c.log('proof broken (explained by the failing input above): ' + b[:200]); continue
         c.broken_no_input('proof', b, dict(detail=b, note='the numeric streams above searched the real code for a failing input'))
-    if extract_err is not None and not c.violations:
+    if extract_err is not None and not explained:
         c.broken_no_input('extract:gauss-tables', 'the Gauss tables can no longer be extracted from points.py: ' + extract_err, dict(error=extract_err))
 
 
@@ -730,7 +756,7 @@ def stream_known_finding(c):
 
 # ---------------------------------------------------------------- tables: floats of the real functions vs extracted rationals, exact monomial oracle
 
-def stream_tables(c, tables, extract_err):
+def stream_tables(c, tables, extract_err, quick):
     from nutils import points
     nbad = 0; ncheck = 0
     for key, fn, nd, maxdoc in (('tri', points.gauss2, 2, 6), ('tet', points.gauss3, 3, 7)):
@@ -777,14 +803,15 @@ def stream_tables(c, tables, extract_err):
         for key, nd in (('tri', 2), ('tet', 3)):
             for deg, (op, k, pts) in zip(claimed_degrees(tables[key]), tables[key]):
                 dx, dw, ip = int_table(pts)
-                req.append('table|%d|%d|%d|%d|%s' % (nd, deg, dx, dw, ';'.join('%s:%d' % (' '.join(map(str, x)), w) for x, w in ip)))
+                heavy = quick and nd == 3 and deg >= 6      # the Rat form / next degree of the big tables only in the thorough tier
+                req.append('table|%s|%d|%d|%d|%d|%s' % ('int' if heavy else 'all', nd, deg, dx, dw, ';'.join('%s:%d' % (' '.join(map(str, x)), w) for x, w in ip)))
                 meta.append((key, deg))
-        ans = c.model(req)
-        bad = [(m, a) for m, a in zip(meta, ans) if a.split()[:3] != ['1', '1', '1']]
+        ans = yield req
+        bad = [(m, a) for m, a in zip(meta, ans) if any(x not in '1-' for x in a.split()[:3]) or len(a.split()) != 4]
         sharp = sum(1 for a in ans if a.split()[3:] == ['0'])
         c.extra['tables_not_exact_one_degree_higher'] = '%d of %d' % (sharp, len(ans))
         c.obligation('model:table-check-int-vs-rat', not bad, 'correspondence', 'driver evaluates tableOK in Int and Rat arithmetic on %d tables; %d are not exact one degree higher' % (len(ans), sharp))
-        if bad:
+        if bad and not any(v[2].startswith('gauss-table-inexact') for v in c.violations):
             c.broken_no_input('model:table-check', 'the executable table check rejects an extracted table: %r' % (bad[:2],), dict(bad=bad[:4]))
 
 
@@ -870,6 +897,8 @@ def stream_rules(c, quick):
                     P = ref.getpoints(scheme, degree)
                     co = numpy.asarray(P.coords, dtype=float); we = numpy.asarray(P.weights, dtype=float)
                 except Exception as e:
+                    if type(e) is Exception and (str(e).startswith('unsupported ischeme') or str(e).startswith('tri not defined')):
+                        c.count('rule-unsupported:%s:%s' % (base_kind, scheme)); continue      # documented: scheme not available on this reference
                     c.count('getpoints-raises:%s:%s' % (scheme, type(e).__name__))
                     nbad += 1
                     c.failing_input('getpoints-raises:%s' % scheme, '%s.getpoints(%r, %r) raises %s' % (name, scheme, degree, type(e).__name__), dict(reference=name, scheme=scheme, degree=degree, error=repr(e)))
@@ -896,10 +925,10 @@ def stream_rules(c, quick):
                 # exactness: total degree <= p on simplices / mosaics / children, degree <= p per variable on tensor factors
                 if isinstance(ref, element.TensorReference) and all(isinstance(r, element.LineReference) for r in tensor_factors(ref)):
                     exps = [e for e in itertools.product(range(degree + 1), repeat=ref.ndims)]
-                    if len(exps) > 60: exps = c.rng.sample(exps, 60)
+                    if len(exps) > (24 if quick else 60): exps = c.rng.sample(exps, 24 if quick else 60)
                 else:
                     exps = monomials(ref.ndims, degree)
-                    if len(exps) > 60: exps = c.rng.sample(exps, 50) + [e for e in exps if sum(e) == degree][:10]
+                    if len(exps) > (24 if quick else 60): exps = c.rng.sample(exps, 18 if quick else 50) + [e for e in exps if sum(e) == degree][:6 if quick else 10]
                 worst = (Fraction(0), None)
                 for e in exps:
                     key = (id(ref), e)
@@ -927,7 +956,7 @@ def stream_rules(c, quick):
     # gauss1: point count vs model, numeric exactness (exploration: nodes from a floating eigen-solve)
     from nutils import points
     degs = list(range(0, 14 if quick else 40))
-    ans = c.model(['gauss1|%d' % d for d in degs])
+    ans = yield ['gauss1|%d' % d for d in degs]
     nb = 0; worst = 0.
     for d, a in zip(degs, ans):
         co, we = points.gauss1(d)
@@ -984,18 +1013,21 @@ def stream_points_model(c, quick):
                 reqs.append('tensor|%s|%s' % (ints(p1.weights), ints(p2.weights)))
                 want_co = [list(a) + list(b) for a in p1.coords for b in p2.coords]
                 real.append((' '.join('%d,%d:%d' % (i, j, int(T.weights[i * p2.npoints + j])) for i in range(p1.npoints) for j in range(p2.npoints)),
-                             numpy.asarray(T.coords).tolist() == want_co and T.npoints == p1.npoints * p2.npoints))
+                             numpy.asarray(T.coords).tolist() == want_co and T.npoints == p1.npoints * p2.npoints and
+                             numpy.asarray(T.weights).tolist() == [float(a * b) for a in p1.weights for b in p2.weights]))
             elif kind == 'transform':
                 p = cw(rng.randint(0, 5), 2)
                 M = numpy.array([[rng.choice([-2, -1, 1, 2, .5]), rng.choice([0, 1, -1])], [rng.choice([0, 1]), rng.choice([1, 2, -1, .5])]], dtype=float)
                 det = M[0, 0] * M[1, 1] - M[0, 1] * M[1, 0]
                 if det == 0: M = numpy.eye(2) * 2; det = 4.
-                tr = transform.Square(M, numpy.array([rng.randint(-2, 2), rng.randint(-2, 2)], dtype=float))
+                tr = transform.Square(types.arraydata(M), types.arraydata(numpy.array([rng.randint(-2, 2), rng.randint(-2, 2)], dtype=float)))
                 T = points.TransformPoints(p, tr)
                 sc = 4
-                reqs.append('transform|%s|%d' % (ints(p.weights), int(abs(det) * sc)))
+                reqs.append('transform|%s|%d' % (ints(p.weights), round(abs(det) * sc)))
                 want_co = (numpy.asarray(p.coords) @ M.T + tr.offset).tolist()
-                real.append((ints(numpy.asarray(T.weights) * sc), numpy.asarray(T.coords).tolist() == want_co))
+                tw = numpy.asarray(T.weights) * sc
+                real.append((ints(numpy.round(tw)), numpy.asarray(T.coords).tolist() == want_co and bool(numpy.all(abs(tw - numpy.round(tw)) < 1e-9)) and
+                             bool(numpy.all(abs(numpy.asarray(T.weights) - abs(det) * numpy.asarray(p.weights)) < 1e-12))))
             else:
                 pool = [[k / 4] for k in range(6)]
                 parts = [cw(rng.randint(1, 4), 1, pool if kind == 'dedup' else None) for _ in range(rng.randint(1, 4))]
@@ -1021,7 +1053,7 @@ def stream_points_model(c, quick):
             if len(reqs) > len(real): reqs.pop()
             c.count('points-model-raises:%s:%s' % (kind, type(e).__name__))
             c.failing_input('points-class-raises:%s' % kind, '%s construction raises %s: %s' % (kind, type(e).__name__, e), dict(kind=kind, error=repr(e)))
-    ans = c.model(reqs)
+    ans = yield reqs
     nbad = 0
     for kind, rq, a, (got, spec_ok) in zip(meta, reqs, ans, real):
         c.case(('points', rq)); c.count('points-model:' + kind)
@@ -1046,55 +1078,73 @@ def stream_pointsseq(c, quick):
     nbad = 0; nops = 0
     items = [points.CoordsWeightsPoints(types.arraydata(numpy.array([[k / 8] for k in range(n)], dtype=float).reshape(n, 1)),
                                         types.arraydata(numpy.arange(1., n + 1))) for n in (0, 1, 2, 3)]
+
+    def holds(seq, lst):
+        if not (len(seq) == len(lst) and seq.npoints == sum(p.npoints for p in lst) and bool(seq) == bool(lst)): return False
+        if [p.npoints for p in seq] != [p.npoints for p in lst]: return False
+        return all(numpy.array_equal(seq.get(i).coords, p.coords) and numpy.array_equal(seq.get(i).weights, p.weights) for i, p in enumerate(lst))
+
     for _ in range(N):
         lst = [rng.choice(items) for _ in range(rng.randint(0, 5))] if rng.random() < .7 else [rng.choice(items)] * rng.randint(1, 4)
         seq = PointsSequence.from_iter(lst, 1)
         hist = ['from_iter%r' % ([p.npoints for p in lst],)]
+        failed = False
         for _ in range(rng.randint(0, 4)):
-            op = rng.choice(['take', 'compress', 'repeat', 'chain', 'product', 'slice'])
+            op = rng.choice(['take', 'take-sorted', 'compress', 'repeat', 'chain', 'product', 'slice'])
+            arg = None
             try:
-                if op == 'take' and lst:
-                    ind = [rng.randrange(len(lst)) for _ in range(rng.randint(0, 4))]
-                    seq = seq.take(numpy.array(ind, dtype=int)); lst = [lst[i] for i in ind]
+                if op in ('take', 'take-sorted') and lst:
+                    arg = [rng.randrange(len(lst)) for _ in range(rng.randint(0, 4))]
+                    if op == 'take-sorted': arg = sorted(arg)
+                    seq = seq.take(numpy.array(arg, dtype=int)); lst = [lst[i] for i in arg]
                 elif op == 'compress':
-                    m = [rng.random() < .6 for _ in lst]
-                    seq = seq.compress(numpy.array(m, dtype=bool)); lst = [p for p, k in zip(lst, m) if k]
+                    arg = [rng.random() < .6 for _ in lst]
+                    seq = seq.compress(numpy.array(arg, dtype=bool)); lst = [p for p, k in zip(lst, arg) if k]
                 elif op == 'repeat':
-                    k = rng.randint(0, 3); seq = seq.repeat(k); lst = lst * k
+                    arg = rng.randint(0, 3); seq = seq.repeat(arg); lst = lst * arg
                 elif op == 'chain':
                     other = [rng.choice(items) for _ in range(rng.randint(0, 3))]
+                    arg = [p.npoints for p in other]
                     seq = seq.chain(PointsSequence.from_iter(other, 1)); lst = lst + other
                 elif op == 'product' and len(lst) <= 4:
                     other = [rng.choice(items[1:]) for _ in range(rng.randint(1, 2))]
+                    arg = [p.npoints for p in other]
                     seq = seq.product(PointsSequence.from_iter(other, 1)); lst = [a * b for a in lst for b in other]
-                    hist.append('product%r' % ([p.npoints for p in other],)); nops += 1
-                    break     # ndims changes: stop here
                 elif op == 'slice' and lst:
-                    a = rng.randint(0, len(lst)); b = rng.randint(a, len(lst))
+                    a = rng.randint(0, len(lst)); b = rng.randint(a, len(lst)); arg = (a, b)
                     seq = seq[a:b]; lst = lst[a:b]
                 else:
                     continue
+                hist.append('%s%r' % (op, arg)); nops += 1; c.count('pointsseq-op:' + op)
+                ok = holds(seq, lst)
             except Exception as e:
-                nbad += 1
-                c.failing_input('pointsseq-raises:' + op, 'PointsSequence.%s raises %s' % (op, type(e).__name__), dict(history=hist, op=op, error=repr(e)))
+                nbad += 1; failed = True
+                c.failing_input('pointsseq-raises:' + op, 'PointsSequence.%s raises %s' % (op, type(e).__name__), dict(history=hist, op=op, arg=arg, error=repr(e)))
                 break
-            hist.append(op); nops += 1
-        c.case(('pointsseq', tuple(hist), tuple(p.npoints for p in lst)), nontrivial=len(hist) > 1); c.count('pointsseq:' + type(seq).__name__)
+            if not ok:
+                nbad += 1; failed = True
+                got = [int(p.npoints) for p in seq]
+                if op == 'take' and arg != sorted(arg) and sorted(got) == sorted(p.npoints for p in lst):
+                    c.failing_input('pointsseq-take-unsorted-reorders', 'PointsSequence.take with non-monotone indices on a chained sequence returns the items grouped by chain part instead of in the requested order',
+                                    dict(history=hist, indices=arg, got=got, want=[p.npoints for p in lst]))
+                else:
+                    c.failing_input('pointsseq-wrong-items', 'PointsSequence after %s does not hold the expected Points' % hist, dict(history=hist, got=got, want=[p.npoints for p in lst]))
+                break
+            if op == 'product': break     # ndims changes: stop here
+        c.case(('pointsseq', tuple(hist)), nontrivial=len(hist) > 1); c.count('pointsseq:' + type(seq).__name__)
+        if failed or not lst: continue
         try:
-            ok = len(seq) == len(lst) and seq.npoints == sum(p.npoints for p in lst) and \
-                all(numpy.array_equal(seq.get(i).coords, p.coords) and numpy.array_equal(seq.get(i).weights, p.weights) for i, p in enumerate(lst)) and \
-                [p.npoints for p in seq] == [p.npoints for p in lst]
-            if ok and lst:
-                i = rng.randrange(len(lst))
-                idx = evaluable.constant(i)
-                co = evaluable.eval_once(seq.get_evaluable_coords(idx)) if hasattr(evaluable, 'eval_once') else seq.get_evaluable_coords(idx).eval()
-                we = evaluable.eval_once(seq.get_evaluable_weights(idx)) if hasattr(evaluable, 'eval_once') else seq.get_evaluable_weights(idx).eval()
-                ok = numpy.array_equal(co, lst[i].coords) and numpy.array_equal(we, lst[i].weights)
+            i = rng.randrange(len(lst))
+            idx = evaluable.constant(i)
+            co = evaluable.eval_once(seq.get_evaluable_coords(idx))
+            we = evaluable.eval_once(seq.get_evaluable_weights(idx))
+            ok = numpy.array_equal(co, lst[i].coords) and numpy.array_equal(we, lst[i].weights)
+            err = None
         except Exception as e:
-            ok = False; hist.append('check raised %s: %s' % (type(e).__name__, e))
+            ok = False; err = repr(e)
         if not ok:
             nbad += 1
-            c.failing_input('pointsseq-wrong-items', 'PointsSequence after %s does not hold the expected Points' % hist, dict(history=hist, want=[p.npoints for p in lst]))
+            c.failing_input('pointsseq-evaluable-wrong', 'get_evaluable_coords/weights of item %d after %s differ from the item' % (i, hist), dict(history=hist, item=i, error=err))
     c.obligation('oracle:pointsseq-containers', nbad == 0, 'oracle', '%d sequences, %d operations vs a plain Python list' % (N, nops))
 
 
@@ -1131,10 +1181,15 @@ def sample_case(c, rng, caseno, spaces_pool, stats):
             spaces_pool[key] = make_space(rng, nm, kind)
         spaces.append(spaces_pool[key])
     for sp in spaces: c.count('space:' + sp.kind)
-    gen = Gen(c, rng)
-    with warnings.catch_warnings():
-        warnings.simplefilter('ignore')
-        S = gen.multi(spaces, rng.randint(1, 4))
+    for attempt in range(4):
+        gen = Gen(c, rng)
+        with warnings.catch_warnings():
+            warnings.simplefilter('ignore')
+            S = gen.multi(spaces, rng.randint(1, 4))
+        if S.npoints <= 2500: break
+        c.count('generator:too-large-retry')
+    else:
+        raise ValueError('sample too large')
     tree = Tree()
     node = tree.node(S)
     expr = expr_str(node)
@@ -1157,6 +1212,7 @@ def stream_samples(c, N):
             c.extra.setdefault('generator_errors', [])
             if len(c.extra['generator_errors']) < 5: c.extra['generator_errors'].append('%s: %s' % (type(e).__name__, str(e)[:200]))
     c.extra['generator_failures'] = ngen_fail
+    c.log('samples: %d real constructions generated' % len(cases))
 
     # ---- model requests: one per case (+ smart constructor operations)
     sreq = []; opreq = []; opmeta = []
@@ -1191,8 +1247,10 @@ def stream_samples(c, N):
                 opreq.append('add|%s|%s' % (expr_str(tr.node(op[1])), expr_str(tr.node(op[2])))); opmeta.append((len(sreq) - 1, op, expr_str(tr.node(op[3]))))
             else:
                 opreq.append('take|%s|%s' % (expr_str(tr.node(op[1])), ints(op[2]))); opmeta.append((len(sreq) - 1, op, expr_str(tr.node(op[3]))))
-    ans = c.model(sreq + opreq)
+    c.log('samples: leaf data evaluated, %d model requests' % (len(sreq) + len(opreq)))
+    ans = yield sreq + opreq
     sans, opans = ans[:len(sreq)], ans[len(sreq):]
+    c.log('samples: model answered')
 
     # ---- smart constructors
     nbad = 0
@@ -1364,6 +1422,7 @@ def stream_samples(c, N):
         else:
             c.count('integral-skipped-no-weights')
     c.extra['sample_stream_bad'] = bad
+    c.log('samples: oracles done')
     c.obligation('corr:sample-index-algebra', bad['index'] == 0 and bad['evaluable'] == 0, 'correspondence', '%d real sample constructions vs SampleExpr: nelems, npoints, getindex, evaluability' % len(cases))
     c.obligation('corr:python-spec-vs-model', bad['spec'] == 0 and bad['numbers'] == 0, 'correspondence', 'element points / weights / integral / bind of the python specification vs the Lean model')
     c.obligation('oracle:index-partition', bad['partition'] == 0, 'oracle', 'real getindex lists partition range(npoints)')
